@@ -167,3 +167,32 @@ Proof.
   intros Hc [a Ha]. unfold pseq. rewrite run_bind. pose proof (all_calls_run _ _ Hc o i) as F.
   destruct (run p o i) as [t1 r1]. cbn [snd fst] in *. subst r1. exists t1. cbn [run]. repeat split; assumption.
 Qed.
+
+(** * returning, with a postcondition on the value, under ONE oracle from position [i] *)
+Definition rets {R} (p : prog R) (o : oracle) (i : nat) (Q : R -> Prop) : Prop := exists r, snd (run p o i) = Some r /\ Q r.
+
+Lemma rets_ret {R} (r : R) o i (Q : R -> Prop) : Q r -> rets (Ret r) o i Q.
+Proof. intros. exists r. split; [reflexivity|assumption]. Qed.
+
+Lemma rets_do {R} c (k : outcome -> prog R) o i Q : rets (k (o i c)) o (S i) Q -> rets (Do c k) o i Q.
+Proof. intros [r [Hr Hq]]. exists r. cbn [run]. destruct (run (k (o i c)) o (S i)). cbn [snd] in *. auto. Qed.
+
+Lemma rets_bind {A B} (p : prog A) (f : A -> prog B) o i (Q1 : A -> Prop) (Q : B -> Prop) :
+  rets p o i Q1 -> (forall a j, Q1 a -> rets (f a) o j Q) -> rets (pbind p f) o i Q.
+Proof.
+  intros [a [Ha Hq]] Hf. unfold rets. rewrite run_bind. destruct (run p o i) as [t1 r1]. cbn [snd] in Ha. subst r1.
+  destruct (Hf a (i + length t1) Hq) as [b [Hb Hqb]]. destruct (run (f a) o (i + length t1)). cbn [snd] in *. eauto.
+Qed.
+
+Lemma rets_seq {A B} (p : prog A) (q : prog B) o i (Q1 : A -> Prop) (Q : B -> Prop) :
+  rets p o i Q1 -> (forall j, rets q o j Q) -> rets (p ;;; q) o i Q.
+Proof. intros H1 H2. apply (rets_bind _ _ _ _ Q1); auto. Qed.
+
+Lemma rets_weaken {R} (p : prog R) o i (Q Q' : R -> Prop) : rets p o i Q -> (forall r, Q r -> Q' r) -> rets p o i Q'.
+Proof. intros [r [H1 H2]] H. exists r. auto. Qed.
+
+Lemma rets_returns {R} (p : prog R) o i Q : rets p o i Q -> returns p o i.
+Proof. intros [r [H _]]. exists r. exact H. Qed.
+
+Lemma hangfree_rets {R} (p : prog R) o i : hangfree p -> rets p o i (fun _ => True).
+Proof. intros H. destruct (hangfree_run p H o i) as [r Hr]. exists r. auto. Qed.
